@@ -17,7 +17,9 @@ strict comparisons leading to an error exit and the merge filters are equalities
 Not decided: the arithmetic of splits/merges and the reported totals over call sequences.
 """
 DECIDED = ['operands and strictness of the range-validity predicates (exclusive end <= device sectors, data-area start inclusive)', "dual-index pairing and total_free bookkeeping on every mutation", "reject-before-mutate in release",
-           "best-fit lookup key; OutOfSpace only when no run fits", "strict overlap probes, equality merge filters"]
+           "best-fit lookup key; OutOfSpace only when no run fits", "strict overlap probes, equality merge filters",
+           'the device bound the predicates read is set by initialize() and set_device_size() alike',
+           "reported totals equal the free set's"]
 NOT_DECIDED = ["split/merge arithmetic", "reported totals equal the true free set after every call (value-level)"]
 ASSUMPTIONS = ["exclusive access is by type: all mutators take &mut self behind RwLock<FreeSpaceManager>"]
 
